@@ -92,6 +92,15 @@ CLAIMED.update({
         note='Trusted: CBMC memory model. Not a whole-library claim.', ref='5/C16'),
 })
 
+CLAIMED.update({
+    'C15': dict(
+        text='Contracts on the productions parse_container (recursive; token loop unwound: bounded) and parse_item (loop-free, complete): skip-depth accounting on '
+             'every path incl. error exits and allocation failure, block/frame/item/keyword/data-name callbacks silent while a skip is in effect, storage '
+             'functions called only outside a skip, only with a target container and (items) only after CONTINUE. The loop productions and parse_cif are '
+             'assumed balanced; callback order across productions and "reported = stored" are not decided.',
+        note='Trusted: CBMC; token source and sub-productions by assumed contract; parse_container job is bounded (<= 3 tokens per container level).', ref='5/C15'),
+})
+
 NOT_APPLICABLE = {
     'C04': 'The abstract state (tables, keys, cascades, triggers) and every transition are SQL text interpreted by SQLite at run time; a C-level '
            'contract can only say that the SQL string was handed to SQLite. A relational contract per statement would be a hand-written model '
